@@ -48,17 +48,18 @@ type Floor struct {
 
 // Ctx carries the loaded program and collects obligations.
 type Ctx struct {
-	Repo    string
-	Prop    string
-	Tier    string
-	Fset    *token.FileSet
-	escWrap map[string]bool              // proven wrappers of the HTML escaper (rules_c03.go)
-	Pkgs    map[string]*packages.Package // by import path suffix relative to module ("" = root, "parse", ...)
-	All     []*packages.Package
-	Prog    *ssa.Program
-	SSA     map[string]*ssa.Package
-	cgVTA   *callgraph.Graph
-	cgCHA   *callgraph.Graph
+	Repo        string
+	Prop        string
+	Tier        string
+	Fset        *token.FileSet
+	constTables map[*types.Var]*constTableInfo
+	escWrap     map[string]bool              // proven wrappers of the HTML escaper (rules_c03.go)
+	Pkgs        map[string]*packages.Package // by import path suffix relative to module ("" = root, "parse", ...)
+	All         []*packages.Package
+	Prog        *ssa.Program
+	SSA         map[string]*ssa.Package
+	cgVTA       *callgraph.Graph
+	cgCHA       *callgraph.Graph
 
 	Obls       []Obligation
 	Floors     []Floor
